@@ -1,7 +1,9 @@
 pub mod c05;
+pub mod c06;
 pub mod c09;
 pub mod c12;
 pub mod c14;
+pub mod c15;
 
 use crate::common::*;
 use serde_json::Value;
@@ -9,9 +11,11 @@ use serde_json::Value;
 pub fn run_property(ctx: &mut Ctx) -> bool {
     match ctx.id.as_str() {
         "C05" => c05::run(ctx),
+        "C06" => c06::run(ctx),
         "C09" => c09::run(ctx),
         "C12" => c12::run(ctx),
         "C14" => c14::run(ctx),
+        "C15" => c15::run(ctx),
         _ => return false,
     }
     true
@@ -50,6 +54,8 @@ pub fn replay(body: &Value) -> i32 {
     let part = body["part"].as_str().unwrap_or("");
     match part {
         "segments" => replay_part(&c09::SegPart, body),
+        "decode" => replay_part(&c06::DecPart, body),
+        "crc" => replay_part(&c15::CrcPart, body),
         "roundtrip" => replay_part(&c05::RtPart, body),
         "checksum" => replay_part(&c14::CkPart, body),
         "confinement" => replay_part(&c12::FsPart, body),
